@@ -25,7 +25,7 @@ Fixpoint distinct (l : list Z) : list Z :=
   match l with [] => [] | x :: t => if zmem x t then distinct t else x :: distinct t end.
 
 (* exceptions of table.py's small helpers; a state-free exception monad *)
-Inductive exn := UnknownAxisError (axis : string) | ValueError.
+Inductive exn := UnknownAxisError (axis : string) | ValueError | TableException (msg : string).
 Inductive res (A : Type) := Ok (a : A) | Raise (e : exn).
 Arguments Ok {A}. Arguments Raise {A}.
 
